@@ -1715,7 +1715,7 @@ def main_common(ctx, prop, mc_jobs, sim_consts, pool, sizes):
         cfg = sim_cfg(os.path.join(ctx.scratch, "Lifecycle_sim_%s.cfg" % label), cfg_consts,
                       extra=("CONSTRAINT %s\n" % constraint) if constraint else "")
         files = tlc.simulate("Lifecycle", cfg, ctx.scratch, num, sizes["depth"], seed,
-                             outdir=os.path.join(ctx.scratch, "sim_%s" % label), timeout=1500)
+                             outdir=os.path.join(ctx.scratch, "sim_%s" % label), timeout=3000)
         out = []
         for f in files:
             states = tlc.parse_trace_file(f)
